@@ -19,17 +19,15 @@ open Handles Expr
 /-- Gaussian `(m - x)²`: derivative `2 (m - x)` everywhere. -/
 theorem C12_deriv_gaussian (x p m : ℝ) :
     HasDerivAt (fun m => gaussian.evalR x p m) (gaussian_grad.evalR x p m) m := by
-  have h := hasDerivAt_D x p gaussian m (by simp [gaussian, Defined])
+  have h := hasDerivAt_D x p gaussian m (by gcp_defined [gaussian])
   refine h.congr_deriv ?_
   simp [gaussian, gaussian_grad, D, evalR] <;> gcp_close
 
 /-- Bernoulli with odds link `log (m + 1) - x log (m + EPS)` on `m ≥ 0`. -/
 theorem C12_deriv_bernoulli_odds (x p m : ℝ) (hm : 0 ≤ m) :
     HasDerivAt (fun m => bernoulli_odds.evalR x p m) (bernoulli_odds_grad.evalR x p m) m := by
-  have he := EPS_pos
-  have h1 : 0 < m + 1 := by linarith
-  have h2 : 0 < m + ((EPS : ℚ) : ℝ) := by linarith
-  have h := hasDerivAt_D x p bernoulli_odds m (by simp [bernoulli_odds, Defined, evalR, h1, h2])
+  gcp_facts m hm
+  have h := hasDerivAt_D x p bernoulli_odds m (by gcp_defined [bernoulli_odds])
   refine h.congr_deriv ?_
   simp [bernoulli_odds, bernoulli_odds_grad, D, evalR] <;> gcp_close
 
@@ -37,41 +35,39 @@ theorem C12_deriv_bernoulli_odds (x p m : ℝ) (hm : 0 ≤ m) :
 theorem C12_deriv_bernoulli_logit (x p m : ℝ) :
     HasDerivAt (fun m => bernoulli_logit.evalR x p m) (bernoulli_logit_grad.evalR x p m) m := by
   have h1 : 0 < Real.exp m + 1 := by positivity
-  have h := hasDerivAt_D x p bernoulli_logit m (by simp [bernoulli_logit, Defined, evalR, h1])
+  have h1' : 0 < 1 + Real.exp m := by positivity
+  have h := hasDerivAt_D x p bernoulli_logit m (by gcp_defined [bernoulli_logit])
   refine h.congr_deriv ?_
   simp [bernoulli_logit, bernoulli_logit_grad, D, evalR] <;> gcp_close
 
 /-- Poisson `m - x log (m + EPS)` on `m ≥ 0`. -/
 theorem C12_deriv_poisson (x p m : ℝ) (hm : 0 ≤ m) :
     HasDerivAt (fun m => poisson.evalR x p m) (poisson_grad.evalR x p m) m := by
-  have he := EPS_pos
-  have h2 : 0 < m + ((EPS : ℚ) : ℝ) := by linarith
-  have h := hasDerivAt_D x p poisson m (by simp [poisson, Defined, evalR, h2])
+  gcp_facts m hm
+  have h := hasDerivAt_D x p poisson m (by gcp_defined [poisson])
   refine h.congr_deriv ?_
   simp [poisson, poisson_grad, D, evalR] <;> gcp_close
 
 /-- Poisson with log link `eᵐ - x m` everywhere. -/
 theorem C12_deriv_poisson_log (x p m : ℝ) :
     HasDerivAt (fun m => poisson_log.evalR x p m) (poisson_log_grad.evalR x p m) m := by
-  have h := hasDerivAt_D x p poisson_log m (by simp [poisson_log, Defined])
+  have h := hasDerivAt_D x p poisson_log m (by gcp_defined [poisson_log])
   refine h.congr_deriv ?_
   simp [poisson_log, poisson_log_grad, D, evalR] <;> gcp_close
 
 /-- Rayleigh `2 log (m + EPS) + (π/4) (x / (m + EPS))²` on `m ≥ 0`. -/
 theorem C12_deriv_rayleigh (x p m : ℝ) (hm : 0 ≤ m) :
     HasDerivAt (fun m => rayleigh.evalR x p m) (rayleigh_grad.evalR x p m) m := by
-  have he := EPS_pos
-  have h2 : 0 < m + ((EPS : ℚ) : ℝ) := by linarith
-  have h := hasDerivAt_D x p rayleigh m (by simp [rayleigh, Defined, evalR, h2, h2.ne'])
+  gcp_facts m hm
+  have h := hasDerivAt_D x p rayleigh m (by gcp_defined [rayleigh])
   refine h.congr_deriv ?_
   simp [rayleigh, rayleigh_grad, D, evalR] <;> gcp_close
 
 /-- Gamma `x / (m + EPS) + log (m + EPS)` on `m ≥ 0`. -/
 theorem C12_deriv_gamma (x p m : ℝ) (hm : 0 ≤ m) :
     HasDerivAt (fun m => gamma.evalR x p m) (gamma_grad.evalR x p m) m := by
-  have he := EPS_pos
-  have h2 : 0 < m + ((EPS : ℚ) : ℝ) := by linarith
-  have h := hasDerivAt_D x p gamma m (by simp [gamma, Defined, evalR, h2, h2.ne'])
+  gcp_facts m hm
+  have h := hasDerivAt_D x p gamma m (by gcp_defined [gamma])
   refine h.congr_deriv ?_
   simp [gamma, gamma_grad, D, evalR] <;> gcp_close
 
@@ -79,10 +75,8 @@ theorem C12_deriv_gamma (x p m : ℝ) (hm : 0 ≤ m) :
 trials `r` (holds for the repaired code, /repo 782e982). -/
 theorem C12_deriv_negative_binomial (x r m : ℝ) (hm : 0 ≤ m) :
     HasDerivAt (fun m => negative_binomial.evalR x r m) (negative_binomial_grad.evalR x r m) m := by
-  have he := EPS_pos
-  have h1 : 0 < m + 1 := by linarith
-  have h2 : 0 < m + ((EPS : ℚ) : ℝ) := by linarith
-  have h := hasDerivAt_D x r negative_binomial m (by simp [negative_binomial, Defined, evalR, h1, h2])
+  gcp_facts m hm
+  have h := hasDerivAt_D x r negative_binomial m (by gcp_defined [negative_binomial])
   refine h.congr_deriv ?_
   simp [negative_binomial, negative_binomial_grad, D, evalR] <;> gcp_close
 
@@ -105,14 +99,12 @@ theorem C12_negbin_counterexample :
 /-- Beta divergence `(1/b)(m + EPS)ᵇ - (1/(b-1)) x (m + EPS)ᵇ⁻¹` on `m ≥ 0`, `b ∉ {0, 1}`. -/
 theorem C12_deriv_beta (x b m : ℝ) (hm : 0 ≤ m) (hb0 : b ≠ 0) (hb1 : b ≠ 1) :
     HasDerivAt (fun m => beta.evalR x b m) (beta_grad.evalR x b m) m := by
-  have he := EPS_pos
-  have h2 : 0 < m + ((EPS : ℚ) : ℝ) := by linarith
+  gcp_facts m hm
   have hb1' : b - 1 ≠ 0 := sub_ne_zero.2 hb1
-  have h := hasDerivAt_D x b beta m (by simp [beta, Defined, evalR, h2, hb0, hb1', noVar])
+  have h := hasDerivAt_D x b beta m (by gcp_defined [beta])
   refine h.congr_deriv ?_
   simp [beta, beta_grad, D, evalR]
-  rw [show b - 1 - 1 = b - 2 by ring]
-  gcp_close
+  gcp_rpow_close
 
 /-- Huber, inner open region `|x - m| < t`. -/
 theorem C12_deriv_huber_inside (x t m : ℝ) (h : |x - m| < t) :
